@@ -287,9 +287,15 @@ func Generate(r *rng.R, tier string, n int, emit func(*common.Case)) {
 		case k < 16:
 			in = genList(cr)
 		case k < 17:
-			in = genProc(cr)
+			if (i/20)%4 == 1 { // round 5: the script named by a recipe line, white space inside the path
+				in = genProcViaRecipe(cr)
+			} else {
+				in = genProc(cr)
+			}
 		case k < 18:
 			in = genGen(cr)
+		case k == 19 && (i/20)%3 != 0: // round 5: recipe values with white-space runs inside, sibling paths
+			in = genRecipeWS(cr)
 		default:
 			in = genRecipe(cr)
 		}
